@@ -326,7 +326,34 @@ func c17LinearCase(rng *rand.Rand) c17Case {
 		eb = 10
 	}
 	var mn, mx float64
-	switch rng.Intn(5) {
+	tickDelta := false
+	switch rng.Intn(6) {
+	case 5: // ends at a tick +- delta, delta on a log grid 1e-13..1e-6 of the width (the code's slack is
+		// 1e-10 of the width), both sides, both ends, |centre|/width about 1, 30 or 1e3
+		ratio := []float64{1, 30, 950}[rng.Intn(3)]
+		j := rng.Intn(7) - 3
+		u := math.Pow(float64(eb), float64(j))
+		if base == 0 && rng.Intn(2) == 0 {
+			u *= 5
+		}
+		m := 1 + rng.Intn(15)
+		a := int(ratio * float64(m) * (0.45 + 0.5*rng.Float64()))
+		if rng.Intn(2) == 0 {
+			a = -a - m
+		}
+		w := float64(m) * u
+		d := func() float64 {
+			x := w * math.Pow(10, -13+7*rng.Float64())
+			if rng.Intn(2) == 0 {
+				x = -x
+			}
+			if rng.Intn(6) == 0 {
+				x = 0
+			}
+			return x
+		}
+		mn, mx = float64(a)*u+d(), float64(a+m)*u+d()
+		tickDelta = true
 	case 0: // ends on small integers
 		mn = float64(rng.Intn(41) - 20)
 		mx = mn + float64(1+rng.Intn(40))
@@ -364,6 +391,10 @@ func c17LinearCase(rng *rand.Rand) c17Case {
 	}
 	nat := 2 * int(math.Round(math.Log(mx-mn)/math.Log(float64(eb))))
 	c := c17Case{K: 1, Base: base, O: c17Opt(rng, nat, 6)}
+	if tickDelta && rng.Intn(4) != 0 {
+		// enough ticks allowed that the chosen level has the two ends (nearly) on ticks
+		c.O.Max = 16 + rng.Intn(5)
+	}
 	for lev := nat - 2; lev <= nat+3; lev++ {
 		c.Levels = append(c.Levels, lev)
 	}
